@@ -516,7 +516,7 @@ def run(seed, tier, runs=None):
     table, forms_tbl = load_table()
     T = Tally(table)
     if runs is None:
-        runs = {'quick': 4, 'thorough': 40}.get(tier, 4)       # scenarios per (year, kind)
+        runs = {'quick': 4, 'thorough': 24}.get(tier, 4)       # scenarios per (year, kind)
     scen = {'run': 0, 'complete': 0, 'incomplete': 0, 'exception': {}, 'by_kind': {}, 'second_pass': 0}
     for year in YEARS:
         for kind in KINDS:
@@ -540,9 +540,12 @@ def run(seed, tier, runs=None):
                 st = values.get('1040.filing_status')
                 sol = Sol(year, values, forms_tbl[year], getattr(st, 'name', None))
                 pending = check_solution(T, year, kind, idx, forms, res, sol)
+                loaded = set(getattr(res['solver'], 'forms', {}) or {})
+                pending = {k: ns for k, ns in pending.items() if all(n.split('.')[0] in loaded for n in ns)}
                 if pending:
                     # an operand of an instruction is a line the solution does not contain (the code of the line never
-                    # asked for it): solve again on the SAME inputs, additionally requesting those lines
+                    # asked for it) although its form is loaded: solve again on the SAME inputs, additionally requesting
+                    # those lines
                     want = sorted({n for ns in pending.values() for n in ns})
                     with warnings.catch_warnings():
                         warnings.simplefilter('ignore')
